@@ -71,6 +71,20 @@ Theorem C12_second_request_same_instances : forall s c name,
 Proof. exact get_sampler_idempotent. Qed.
 Print Assumptions C12_second_request_same_instances.
 
+(* Worker-count independence: within one registry generation (no reload in between), a worker
+   that has to ask the factory gets exactly the instances the first asker got — whichever worker,
+   whatever other lookups and worker reload signals happened meanwhile.  Together with
+   C12_worker_cache_stable: all workers that have processed the latest reload decide with the
+   same rate-tracking state for a given sampler key. *)
+Theorem C12_workers_agree : forall s w1 w2 name ops,
+  cfind w1 name (w_cache s) = None -> no_reload ops ->
+  let s1 := fst (wstep s (WGet w1 name)) in
+  let s2 := wstate_after s1 ops in
+  cfind w2 name (w_cache s2) = None ->
+  snd (wstep s2 (WGet w2 name)) = snd (wstep s (WGet w1 name)).
+Proof. exact workers_agree. Qed.
+Print Assumptions C12_workers_agree.
+
 (* The pinned tree's key ("%s:%s:%d:%v" of prefix, type, one rate, sorted fields) was not
    injective: definitions differing in MaxKeys / UseTraceLength, field lists ["a b"] vs ["a";"b"],
    and the top-level name "rules:prod:" vs the downstream samplers of "prod" collide; the key of the
